@@ -1152,6 +1152,326 @@ theorem strtoULL_spec (w : Nat) (R : Reads) (t : List Byte) (base : Nat)
       generalize (W - (W - 1)) % W = nm'
       cases sg.1 <;> refine congrArg some (Prod.ext ?_ ?_) <;> simp <;> omega
 
+/-! ### strtoll: the signed accumulator -/
+
+
+/-- state of strtoll's signed digit loop after a digit string of value `N` -/
+def GoodS (H : Nat) (neg : Bool) (N : Nat) (ne : Bool) (st : Int × Int) : Prop :=
+  (ne = false → N = 0 ∧ st = (0, 0)) ∧
+  (ne = true → N ≤ (if neg = true then H else H - 1) → st = (if neg = true then -(N : Int) else (N : Int), 1)) ∧
+  (ne = true → (if neg = true then H else H - 1) < N → st = (if neg = true then -(H : Int) else (H : Int) - 1, -1))
+
+theorem stepS_good (H b : Nat) (neg : Bool) (hH : 0 < H) (hb : 0 < b)
+    (N : Nat) (ne : Bool) (st : Int × Int) (d : Nat) (hd : d < b) (g : GoodS H neg N ne st) :
+    ∃ st', stepS (-(H : Int)) ((H : Int) - 1) (b : Int) neg
+        (if neg = true then -(((if neg = true then H else H - 1) / b : Nat) : Int) else (((if neg = true then H else H - 1) / b : Nat) : Int))
+        (((if neg = true then H else H - 1) % b : Nat) : Int) st (d : Int) = some st' ∧
+      GoodS H neg (N * b + d) true st' := by
+  obtain ⟨g1, g2, g3⟩ := g
+  have hmono : N ≤ N * b + d := by
+    have := Nat.mul_le_mul_left N (show 1 ≤ b from hb)
+    omega
+  have hNb : (N : Int) * (b : Int) = ((N * b : Nat) : Int) := by push_cast; rfl
+  cases neg with
+  | true =>
+    simp only [if_true] at g2 g3 ⊢
+    unfold GoodS
+    simp only [if_true]
+    generalize hlim : H = limit at g2 g3 ⊢
+    have key := cutoff_test limit b N d hb hd
+    have hq := Nat.div_add_mod limit b
+    have hr := Nat.mod_lt limit hb
+    generalize hqq : limit / b = q at *
+    generalize hrr : limit % b = r at *
+    have hcases : (ne = false ∧ N = 0 ∧ st = (0, 0)) ∨ (ne = true ∧ N ≤ limit ∧ st = (-(N : Int), 1)) ∨
+        (ne = true ∧ limit < N ∧ st = (-(limit : Int), -1)) := by
+      cases ne with
+      | false => left; exact ⟨rfl, g1 rfl⟩
+      | true =>
+        right
+        by_cases h : N ≤ limit
+        · left; exact ⟨rfl, h, g2 rfl h⟩
+        · right; exact ⟨rfl, by omega, g3 rfl (by omega)⟩
+
+    rcases hcases with ⟨_, hN0, hst⟩ | ⟨_, hN, hst⟩ | ⟨_, hN, hst⟩
+    · subst hN0; subst hst
+      unfold stepS
+      simp only [show ¬ ((0 : Int) < 0) by omega, if_false, Bool.false_eq_true, if_true]
+      by_cases hov : 0 * b + d > limit
+      · have hc : ((0 : Int) < -(q : Int) ∨ ((0 : Int) = -(q : Int) ∧ (d : Int) > (r : Int))) := by
+          rcases key.2 hov with h | ⟨h, h'⟩
+          · omega
+          · right; constructor <;> omega
+        rw [if_pos hc]
+        refine ⟨_, rfl, ?_⟩
+        refine ⟨(by intro h; cases h), (by intro _ h; omega), ?_⟩
+        intro _ _; simp
+      · have hc : ¬ ((0 : Int) < -(q : Int) ∨ ((0 : Int) = -(q : Int) ∧ (d : Int) > (r : Int))) := by
+          intro h
+          apply hov; apply key.1
+          rcases h with h | ⟨h, h'⟩
+          · omega
+          · right; constructor <;> omega
+        rw [if_neg hc]
+        simp only [Int.zero_mul]
+        rw [if_neg (by omega)]
+        refine ⟨_, rfl, ?_⟩
+        refine ⟨(by intro h; cases h), ?_, (by intro _ h; omega)⟩
+        intro _ _; simp
+    · subst hst
+      unfold stepS
+      simp only [show ¬ ((1 : Int) < 0) by omega, if_false, Bool.false_eq_true, if_true]
+      by_cases hov : N * b + d > limit
+      · have hc : (-(N : Int) < -(q : Int) ∨ (-(N : Int) = -(q : Int) ∧ (d : Int) > (r : Int))) := by
+          rcases key.2 hov with h | ⟨h, h'⟩
+          · omega
+          · right; constructor <;> omega
+        rw [if_pos hc]
+        refine ⟨_, rfl, ?_⟩
+        refine ⟨(by intro h; cases h), (by intro _ h; omega), ?_⟩
+        intro _ _; simp
+      · have hc : ¬ (-(N : Int) < -(q : Int) ∨ (-(N : Int) = -(q : Int) ∧ (d : Int) > (r : Int))) := by
+          intro h
+          apply hov; apply key.1
+          rcases h with h | ⟨h, h'⟩
+          · omega
+          · right; constructor <;> omega
+        rw [if_neg hc]
+        simp only [Int.neg_mul, hNb]
+        rw [if_neg (by omega)]
+        refine ⟨_, rfl, ?_⟩
+        refine ⟨(by intro h; cases h), ?_, (by intro _ h; omega)⟩
+        intro _ _; simp <;> omega
+    · subst hst
+      unfold stepS
+      simp only [show ((-1 : Int) < 0) by omega, if_true]
+      refine ⟨_, rfl, ?_⟩
+      refine ⟨(by intro h; cases h), (by intro _ h; omega), ?_⟩
+      intro _ _; rfl
+  | false =>
+    simp only [Bool.false_eq_true, if_false] at g2 g3 ⊢
+    unfold GoodS
+    simp only [Bool.false_eq_true, if_false]
+    generalize hlim : H - 1 = limit at g2 g3 ⊢
+    have key := cutoff_test limit b N d hb hd
+    have hq := Nat.div_add_mod limit b
+    have hr := Nat.mod_lt limit hb
+    generalize hqq : limit / b = q at *
+    generalize hrr : limit % b = r at *
+    have hcases : (ne = false ∧ N = 0 ∧ st = (0, 0)) ∨ (ne = true ∧ N ≤ limit ∧ st = ((N : Int), 1)) ∨
+        (ne = true ∧ limit < N ∧ st = ((H : Int) - 1, -1)) := by
+      cases ne with
+      | false => left; exact ⟨rfl, g1 rfl⟩
+      | true =>
+        right
+        by_cases h : N ≤ limit
+        · left; exact ⟨rfl, h, g2 rfl h⟩
+        · right; exact ⟨rfl, by omega, g3 rfl (by omega)⟩
+
+    rcases hcases with ⟨_, hN0, hst⟩ | ⟨_, hN, hst⟩ | ⟨_, hN, hst⟩
+    · subst hN0; subst hst
+      unfold stepS
+      simp only [show ¬ ((0 : Int) < 0) by omega, if_false, Bool.false_eq_true, if_true]
+      by_cases hov : 0 * b + d > limit
+      · have hc : ((0 : Int) > (q : Int) ∨ ((0 : Int) = (q : Int) ∧ (d : Int) > (r : Int))) := by
+          rcases key.2 hov with h | ⟨h, h'⟩
+          · omega
+          · right; constructor <;> omega
+        rw [if_pos hc]
+        refine ⟨_, rfl, ?_⟩
+        refine ⟨(by intro h; cases h), (by intro _ h; omega), ?_⟩
+        intro _ _; simp
+      · have hc : ¬ ((0 : Int) > (q : Int) ∨ ((0 : Int) = (q : Int) ∧ (d : Int) > (r : Int))) := by
+          intro h
+          apply hov; apply key.1
+          rcases h with h | ⟨h, h'⟩
+          · omega
+          · right; constructor <;> omega
+        rw [if_neg hc]
+        simp only [Int.zero_mul]
+        rw [if_neg (by omega)]
+        refine ⟨_, rfl, ?_⟩
+        refine ⟨(by intro h; cases h), ?_, (by intro _ h; omega)⟩
+        intro _ _; simp
+    · subst hst
+      unfold stepS
+      simp only [show ¬ ((1 : Int) < 0) by omega, if_false, Bool.false_eq_true, if_true]
+      by_cases hov : N * b + d > limit
+      · have hc : ((N : Int) > (q : Int) ∨ ((N : Int) = (q : Int) ∧ (d : Int) > (r : Int))) := by
+          rcases key.2 hov with h | ⟨h, h'⟩
+          · omega
+          · right; constructor <;> omega
+        rw [if_pos hc]
+        refine ⟨_, rfl, ?_⟩
+        refine ⟨(by intro h; cases h), (by intro _ h; omega), ?_⟩
+        intro _ _; simp
+      · have hc : ¬ ((N : Int) > (q : Int) ∨ ((N : Int) = (q : Int) ∧ (d : Int) > (r : Int))) := by
+          intro h
+          apply hov; apply key.1
+          rcases h with h | ⟨h, h'⟩
+          · omega
+          · right; constructor <;> omega
+        rw [if_neg hc]
+        simp only [hNb]
+        rw [if_neg (by omega)]
+        refine ⟨_, rfl, ?_⟩
+        refine ⟨(by intro h; cases h), ?_, (by intro _ h; omega)⟩
+        intro _ _; simp <;> omega
+    · subst hst
+      unfold stepS
+      simp only [show ((-1 : Int) < 0) by omega, if_true]
+      refine ⟨_, rfl, ?_⟩
+      refine ⟨(by intro h; cases h), (by intro _ h; omega), ?_⟩
+      intro _ _; rfl
+
+theorem loopS_good (H b : Nat) (neg : Bool) (lp : Bool) (hH : 0 < H) (hb2 : 2 ≤ b) (hb36 : b ≤ 36) :
+    ∀ (bs : List Byte) (stop : Byte) (tail : List Byte), (∀ x ∈ bs, Spec.digit x < b) → ¬ Spec.digit stop < b →
+    ∀ (cb : Byte) (rest : List Byte), cb :: rest = bs ++ stop :: tail →
+    ∀ (u : Bool) (off : Nat) (st : Int × Int) (N : Nat) (ne : Bool), GoodS H neg N ne st →
+    ∃ st' : Int × Int,
+      loopS (-(H : Int)) ((H : Int) - 1) (b : Int) neg
+        (if neg = true then -(((if neg = true then H else H - 1) / b : Nat) : Int) else (((if neg = true then H else H - 1) / b : Nat) : Int))
+        (((if neg = true then H else H - 1) % b : Nat) : Int) lp rest (rd u cb) off st = some (st'.1, st'.2, off + bs.length) ∧
+      GoodS H neg ((bs.map Spec.digit).foldl (fun a d => a * b + d) N) (ne || !bs.isEmpty) st' := by
+  intro bs
+  induction bs with
+  | nil =>
+    intro stop tail _ hstop cb rest heq u off st N ne g
+    simp only [List.nil_append, List.cons.injEq] at heq
+    obtain ⟨h1, h2⟩ := heq
+    subst h1; subst h2
+    refine ⟨st, ?_, by simpa using g⟩
+    unfold loopS
+    rw [digitOf_rd]
+    by_cases h36 : Spec.digit cb < 36
+    · simp only [h36, if_true]
+      have : ((Spec.digit cb : Nat) : Int) ≥ (b : Int) := by omega
+      simp only [this, if_true, List.length_nil, Nat.add_zero]
+    · simp only [h36, if_false, List.length_nil, Nat.add_zero]
+  | cons x bs ih =>
+    intro stop tail hbs hstop cb rest heq u off st N ne g
+    simp only [List.cons_append, List.cons.injEq] at heq
+    obtain ⟨h1, h2⟩ := heq
+    subst h1
+    have hx := hbs cb List.mem_cons_self
+    obtain ⟨st1, hstep, g'⟩ := stepS_good H b neg hH (by omega) N ne st (Spec.digit cb) hx g
+    have hne : ∃ cb' rest', cb' :: rest' = bs ++ stop :: tail := by
+      cases bs with
+      | nil => exact ⟨stop, tail, rfl⟩
+      | cons y ys => exact ⟨y, ys ++ stop :: tail, rfl⟩
+    obtain ⟨cb', rest', heq'⟩ := hne
+    obtain ⟨st', hrun, g''⟩ := ih stop tail (fun y hy => hbs y (List.mem_cons_of_mem _ hy)) hstop cb' rest' heq' lp (off + 1) st1
+      (N * b + Spec.digit cb) true g'
+    refine ⟨st', ?_, by simpa using g''⟩
+    unfold loopS
+    rw [digitOf_rd]
+    have h36 : Spec.digit cb < 36 := by omega
+    simp only [h36, if_true]
+    have : ¬ ((Spec.digit cb : Nat) : Int) ≥ (b : Int) := by omega
+    simp only [this, if_false]
+    rw [hstep]
+    simp only
+    rw [h2, ← heq']
+    simp only
+    rw [hrun]
+    simp only [List.length_cons]
+    congr 3
+    omega
+
+theorem strtoLL_spec (w : Nat) (hw : 0 < w) (R : Reads) (t : List Byte) (base : Nat)
+    (hbase : base = 0 ∨ (2 ≤ base ∧ base ≤ 36)) :
+    strtoLL w R (t ++ [0]) base = some (Spec.signedResult w (Spec.parse t base)) := by
+  obtain ⟨cb, rest, u, hcb, hfront⟩ := front_spec R t base
+  obtain ⟨hW2, hH0⟩ := pow_split w hw
+  generalize hsg : Spec.sign (t.dropWhile Spec.isSpace) = sg at hcb hfront
+  generalize hhex : (decide (base = 0 ∨ base = 16) && Spec.hexPrefix sg.2.2) = hex at hcb hfront
+  obtain ⟨hb2, hb36⟩ := effBase_range base hbase hex sg.2.2
+  generalize hb : Spec.effBase base hex sg.2.2 = b at hfront hb2 hb36
+  generalize ht3 : (if hex = true then sg.2.2.drop 2 else sg.2.2) = t3 at hcb
+  have hHi : (2 : Int) ^ (w - 1) = ((2 ^ (w - 1) : Nat) : Int) := by norm_cast
+  generalize hH : 2 ^ (w - 1) = H at *
+  obtain ⟨stop, tail, hsplit, hstop⟩ := run_split b hb36 t3
+  have g0 : GoodS H sg.1 0 false ((0 : Int), (0 : Int)) :=
+    ⟨fun _ => ⟨rfl, rfl⟩, (by intro h; cases h), (by intro h; cases h)⟩
+  obtain ⟨st, hloop, hgood⟩ := loopS_good H b sg.1 R.lp hH0 hb2 hb36
+    (t3.takeWhile (fun x => decide (Spec.digit x < b))) stop tail
+    (by intro x hx; have := mem_takeWhile_sat hx; simpa using this) hstop cb rest (by rw [hcb, hsplit]) u
+    ((t.takeWhile Spec.isSpace).length + sg.2.1 + (if hex = true then 2 else 0) + 1) (0, 0) 0 false g0
+  unfold strtoLL
+  rw [hfront]
+  simp only [hHi]
+  -- the cutoff / cutlim computation
+  have hcut : (if sg.1 = true then
+        ((if ((if sg.1 = true then -(H : Int) else (H : Int) - 1).tmod (b : Int)) > 0 then
+            ((if sg.1 = true then -(H : Int) else (H : Int) - 1).tdiv (b : Int) + 1,
+             (if sg.1 = true then -(H : Int) else (H : Int) - 1).tmod (b : Int) - (b : Int))
+          else ((if sg.1 = true then -(H : Int) else (H : Int) - 1).tdiv (b : Int),
+                (if sg.1 = true then -(H : Int) else (H : Int) - 1).tmod (b : Int))).1,
+         -(if ((if sg.1 = true then -(H : Int) else (H : Int) - 1).tmod (b : Int)) > 0 then
+            ((if sg.1 = true then -(H : Int) else (H : Int) - 1).tdiv (b : Int) + 1,
+             (if sg.1 = true then -(H : Int) else (H : Int) - 1).tmod (b : Int) - (b : Int))
+          else ((if sg.1 = true then -(H : Int) else (H : Int) - 1).tdiv (b : Int),
+                (if sg.1 = true then -(H : Int) else (H : Int) - 1).tmod (b : Int))).2)
+      else ((if sg.1 = true then -(H : Int) else (H : Int) - 1).tdiv (b : Int),
+            (if sg.1 = true then -(H : Int) else (H : Int) - 1).tmod (b : Int))) =
+      ((if sg.1 = true then -(((if sg.1 = true then H else H - 1) / b : Nat) : Int) else (((if sg.1 = true then H else H - 1) / b : Nat) : Int)),
+       (((if sg.1 = true then H else H - 1) % b : Nat) : Int)) := by
+    cases sg.1
+    · simp only [Bool.false_eq_true, if_false]
+      have : (H : Int) - 1 = ((H - 1 : Nat) : Int) := by omega
+      rw [this, ← Int.ofNat_tdiv, ← Int.ofNat_tmod]
+    · simp only [if_true, Int.neg_tmod, Int.neg_tdiv, ← Int.ofNat_tdiv, ← Int.ofNat_tmod]
+      have : ¬ (-((H % b : Nat) : Int) > 0) := by omega
+      simp only [this, if_false, Int.neg_neg]
+  rw [hcut]
+  simp only
+  rw [hloop]
+  simp only
+  have hparse : Spec.parse t base =
+      if Spec.digits b t3 = [] then none
+      else some ⟨sg.1, Spec.ofDigits b (Spec.digits b t3),
+        (t.takeWhile Spec.isSpace).length + sg.2.1 + (if hex = true then 2 else 0) + (Spec.digits b t3).length⟩ := by
+    unfold Spec.parse
+    simp only [hsg, hhex, hb, ht3]
+  rw [hparse]
+  rw [← digits_eq] at hgood
+  have hlen' : (t3.takeWhile (fun x => decide (Spec.digit x < b))).length = (Spec.digits b t3).length := by
+    rw [digits_eq, List.length_map]
+  have hemp : (t3.takeWhile (fun x => decide (Spec.digit x < b))).isEmpty = (Spec.digits b t3).isEmpty := by
+    rw [digits_eq, List.isEmpty_map]
+  rw [hlen']
+  rw [hemp] at hgood
+  have hof : List.foldl (fun a d => a * b + d) 0 (Spec.digits b t3) = Spec.ofDigits b (Spec.digits b t3) := rfl
+  rw [hof] at hgood
+  obtain ⟨g1, g2, g3⟩ := hgood
+  by_cases hds : Spec.digits b t3 = []
+  · obtain ⟨_, hst⟩ := g1 (by simp [hds])
+    simp only [hds, if_true, Spec.signedResult]
+    rw [hst]
+    simp [endOff]
+  · have hne : (false || !(Spec.digits b t3).isEmpty) = true := by
+      cases h : Spec.digits b t3 with
+      | nil => exact absurd h hds
+      | cons _ _ => rfl
+    have hlen : 0 < (Spec.digits b t3).length := by
+      cases h : Spec.digits b t3 with
+      | nil => exact absurd h hds
+      | cons _ _ => simp
+    simp only [hds, if_false, Spec.signedResult, hHi]
+    generalize Spec.ofDigits b (Spec.digits b t3) = mag at *
+    generalize (Spec.digits b t3).length = len at *
+    by_cases hfit : mag ≤ (if sg.1 = true then H else H - 1)
+    · have hst := g2 hne hfit
+      rw [hst]
+      simp only [endOff]
+      cases hneg : sg.1 <;> simp only [hneg] at hfit <;> simp only [Bool.false_eq_true, if_false, if_true] at hfit ⊢ <;>
+        refine congrArg some (Prod.ext ?_ ?_) <;> simp only [] <;> (repeat' split) <;> omega
+    · have hst := g3 hne (by omega)
+      rw [hst]
+      simp only [endOff]
+      cases hneg : sg.1 <;> simp only [hneg] at hfit <;> simp only [Bool.false_eq_true, if_false, if_true] at hfit ⊢ <;>
+        refine congrArg some (Prod.ext ?_ ?_) <;> simp only [] <;> (repeat' split) <;> omega
+
 end strto
 
 end Igris.C11
